@@ -176,6 +176,16 @@ impl StorageEngine {
             return Err(StorageError::InvalidRelationName(name.to_string()));
         }
 
+        // A knowledge graph lives in `<data_dir>/<name>`. The storage engine keeps its own state in
+        // `<data_dir>/persist` (every graph's shards, batches and WAL) and `<data_dir>/metadata`
+        // (the graph registry): a graph of that name would share the directory, and creating or
+        // dropping it would wipe the data of all graphs.
+        if name == "persist" || name == "metadata" {
+            return Err(StorageError::InvalidRelationName(format!(
+                "'{name}' is reserved for the storage engine's own directory"
+            )));
+        }
+
         // Validate name length to prevent filesystem PATH_MAX failures
         if name.len() > Self::MAX_KG_NAME_BYTES {
             return Err(StorageError::InvalidRelationName(format!(
